@@ -4,12 +4,15 @@ CHECK = {
         {"mode": "inpkg", "pkg": "runner/ollamarunner",
          "files": ["rs_backend_test.go", "rs_model_test.go", "c07_run_test.go"], "shims": _SHIM},
         {"mode": "inpkg", "pkg": "runner/llamarunner", "files": ["c07_slots_test.go"], "shims": _SHIM},
+        {"mode": "inpkg", "pkg": "runner/llamarunner", "files": ["llr_engine_test.go", "c07_llama_test.go"]},
     ],
     "level": "exploration",
     "engine": "runnersim",
     "technique": "stateful model-based testing (rapid, shrinking) of the real ollamarunner.Server + InputCache over the real kvcache.Causal with a "
                  "scripted model that reads back what every batch row can attend to; invariant at every Forward, ownership predicates at every "
-                 "slot hand-out, differential against a fresh runner per request; llamarunner slot selection differentially against ollamarunner's",
+                 "slot hand-out, differential against a fresh runner per request; llamarunner slot selection differentially against ollamarunner's; "
+                 "plus request histories on the real llamarunner.Server over llama.cpp's KV cache with a generated tiny GGUF model (pseudo-random "
+                 "weights, greedy sampling), differentially against a from-scratch evaluation of the effective input with harness-computed logits",
     "level_text": "Randomised exploration of configurations x request histories, not enumeration. Every Forward of every history is checked "
                   "(visible (position, token) set of each row == the slot's record), every LoadCacheSlot result is checked for ownership and for "
                   "prompt = record ++ rest, every idle slot is probed at the end by a request reusing all of it, and every request's tokens, text, "
@@ -23,12 +26,30 @@ CHECK = {
                   "select is deterministic. Slot choice uses time.Now() inside ollama: the llamarunner target runs in a testing/synctest bubble, "
                   "the ollamarunner engine relies on the monotonic clock advancing between two requests (no oracle depends on WHICH free slot is "
                   "chosen). Multimodal inputs, SameBatch and a model without cache are not generated. llamarunner: LoadCacheSlot / ShiftCacheSlot "
-                  "and everything else that calls (*llama.Context).KvCache* goes through cgo into llama.cpp and needs a loaded model - NOT covered; "
-                  "only findLongestCacheSlot, findBestCacheSlot (lc == nil, as the package's own tests do), countCommonPrefix and ShiftDiscard are "
+                  "and everything else that calls (*llama.Context).KvCache* goes through cgo into llama.cpp and needs a loaded model: the targets "
+                  "TestC07LlamaSlots / TestC07LlamaShiftDiscard check "
+                  "only findLongestCacheSlot, findBestCacheSlot (lc == nil, as the package's own tests do), countCommonPrefix and ShiftDiscard "
                   "(differentially against ollamarunner's exported LoadCacheSlot/ShiftCacheSlot/ShiftDiscard with a cache-less model, plus the "
-                  "never-in-use / common-prefix / forked-prefix predicates). Known findings are steered around only when listed: Remove(id,0,-1) "
+                  "never-in-use / common-prefix / forked-prefix predicates); TestC07LlamaRunner (engine llr, added late) runs the rest for real: a "
+                  "GGUF file written with fs/ggml.WriteGGUF (architecture llama, ONE block, embedding 16, 2 heads, F32, every tensor pseudo-random "
+                  "from a seed 1-3; only 14 single-character tokens and EOS have non-zero output rows) is loaded by the runner's own loadModel, "
+                  "requests go through the real completion handler and Server.run (temperature 0). Reference: the harness keeps the effective "
+                  "input itself (truncation and shift arithmetic as documented in runner.go/cache.go), evaluates it from scratch on a llama.cpp "
+                  "context of its own and takes the argmax of output.weight x final hidden state computed in Go (llama.cpp contexts are created "
+                  "with embeddings on): no runner, no cache reuse, no llama.cpp sampler in the reference. One block on purpose: K/V of a token then "
+                  "depend on (token, position) only, so entries kept across a shift (K re-rotated by llama.cpp) are what a fresh evaluation "
+                  "computes; with more blocks the deeper entries remember discarded tokens and 'same effective input' is not defined. Floating "
+                  "point: f16 K entries re-rotated by a shift are rounded twice (measured logit deviation <= 0.02, without shift <= 1e-5); the "
+                  "reference knows every step's margin and a request is compared only up to its first step with margin < 0.05 (< 0.3 once any "
+                  "request on that server has shifted) - counted (llrc07_compared_up_to_a_near_tie), never failed; a survey of 70 000 requests on "
+                  "the unchanged tree saw divergences only at margins < 0.01. Which slot a request gets is not asserted (time.Now() inside "
+                  "ollama); overlapping requests start after the previous one's first chunk. Trusted: package llama, llama.cpp decode, "
+                  "WriteGGUF. Known findings are steered around only when listed: Remove(id,0,-1) "
                   "answered as 'clear' (shift-reset-remove-minus-one), sliding-window cache told a larger maxBatch (swa-cache-undersized), "
-                  "num_keep 0 for sliding-window requests whose shift would keep an evicted prefix (swa-shift-keeps-evicted-prefix); replays "
+                  "num_keep 0 for sliding-window requests whose shift would keep an evicted prefix (swa-shift-keeps-evicted-prefix); the finding of "
+                  "the llamarunner target (llama-shift-moves-cells-shared-with-forked-slot: a context shift moved the KV cells a forked slot "
+                  "shares with its source) is fixed in /repo (132e24559), its switch (multi-user requests cut so that they never shift) remains "
+                  "in the harness but is off unless the slug is listed; replays "
                   "always run strict. Two kvcache findings owned by C06 that this engine also hit (defrag-merged-move-swaps-cells, "
                   "swa-canresume-ignores-evicted-window-start) are fixed in /repo (4df0323fc, 69c0d024e); their switches (abandon the case at a "
                   "merged defrag move / deny CanResume right after CopyPrefix) remain in the engine but are off unless those slugs are listed.",
@@ -41,9 +62,15 @@ CHECK = {
                  "thorough": {"cases": 300000, "shards": 4, "soft_s": 300}},
                 {"name": "TestC07LlamaShiftDiscard", "build": 1, "kind": "plain",
                  "quick": {"cases": 1, "shards": 1, "soft_s": 30},
-                 "thorough": {"cases": 1, "shards": 1, "soft_s": 30}}],
+                 "thorough": {"cases": 1, "shards": 1, "soft_s": 30}},
+                {"name": "TestC07LlamaRunner", "build": 2,
+                 "quick": {"cases": 4000, "shards": 4, "soft_s": 30},
+                 "thorough": {"cases": 100000, "shards": 6, "soft_s": 320}}],
     "floors": {"fork": 0.08, "shift": 0.15, "shift_failed_reprocess": 0.05, "multiuser_not_longest_slot": 0.04,
-               "prefix_reused": 0.4, "parallel_overlap": 0.25, "prompt_truncated": 0.1, "stop_hit": 0.15},
+               "prefix_reused": 0.4, "parallel_overlap": 0.25, "prompt_truncated": 0.1, "stop_hit": 0.15,
+               # TestC07LlamaRunner (classes are per target: prefix llrc07_)
+               "llrc07_shift": 0.25, "llrc07_prefix_reused": 0.4, "llrc07_prefix_includes_generated_text": 0.3, "llrc07_parallel_overlap": 0.2,
+               "llrc07_multiuser_policy": 0.3, "llrc07_stop_hit": 0.15, "llrc07_prompt_truncated": 0.1, "llrc07_probe": 0.9},
     "rule": "rapid-generated: configuration {parallel 1-4, num_ctx 4-24 per slot, batch 1-8, multi-user slot policy on/off, cache kind in "
             "{causal, sliding window 1..num_ctx+4, causal without shift function, decorator refusing to shift, decorator refusing partial "
             "erase}, 1-2 layers, cache/mask padding 1|4, vocabulary 2-8, optional EOS} x history of 1-8 requests {prompt = new tokens or a "
@@ -52,9 +79,15 @@ CHECK = {
             "arrival order whenever fewer than `parallel` are active, followed by one probe request per non-empty slot. Non-trivial = history "
             "containing a fork (CopyPrefix), a successful context shift or a failed shift with reprocessing. Distinct = distinct hash of the "
             "generated case. llamarunner target: 1-4 slots, num_ctx 2-16, 1-30 ops of load/gen/shift/release; ShiftDiscard enumerated for "
-            "num_ctx 1-40 x keep x length.",
+            "num_ctx 1-40 x keep x length. TestC07LlamaRunner: model seed 1-3, parallel 1|2, num_ctx in {8,10,12,16,32} per slot, batch in "
+            "{1,2,4,32}, multi-user slot policy on/off, history of 1-7 requests {prompt = new characters or a prefix (any length up to all) of an "
+            "earlier request's prompt++returned text plus 0..num_ctx+4 new characters (one token per character), num_predict 1..2*num_ctx+4, "
+            "num_keep -1..num_ctx, 0-2 stop strings of 1-2 characters, 1 in 3 starts while the previous request is still being served}, then one "
+            "probe per slot reusing everything it records. Non-trivial there = a context shift, or a reused prefix in a history of >= 2 requests.",
     "assumptions": ["fake K/V rows encode (token, position, layer); the model's shift function adds the cache's offsets to the position channel",
                     "the harness, not Server.completion/Server.run, admits requests and calls processBatch (same code otherwise)",
                     "time.Now() advances between two slot hand-outs (ollamarunner engine); llamarunner target under testing/synctest",
-                    "llamarunner KV operations (cgo llama.cpp) are out of reach: only its pure slot-selection and shift arithmetic are checked"],
+                    "llamarunner on a real model: one transformer block (K/V of a token depend on token and position only), greedy sampling, "
+                    "comparison up to the first near tie (margin tolerance 0.05 / 0.3 after a shift)",
+                    "llamarunner on a real model: the reference is a from-scratch llama.cpp evaluation of the effective input + logits computed in Go"],
 }
